@@ -15,10 +15,11 @@ from .. import gen_tokens as G
 
 ID = "C09"
 LEAN_MODULES = ["PycModel.Properties.C09"]
-NAMESPACES = ["PycModel.C09"]
+NAMESPACES = ["PycModel.C09", "PycModel.LexPos"]
 REQUIRED_THEOREMS = [
     "PycModel.C09.impl_lex_wf", "PycModel.C09.impl_keywords", "PycModel.C09.impl_punctuators",
     "PycModel.C09.impl_master_is_rules", "PycModel.C09.scan_terminates_never_stuck",
+    "PycModel.C09.scan_position_exact", "PycModel.C09.scan_line_is_newline_count", "PycModel.LexPos.scanLoop_exact",
 ]
 LEVEL = "proof"
 TRUSTED = [
@@ -114,7 +115,12 @@ def run(ctx):
     # ---- (1) exhaustive short strings ------------------------------------------------------
     k = 3 if ctx.quick() else 5
     texts = ["".join(p) for n in range(0, k + 1) for p in itertools.product(ALPHABET20, repeat=n)]
-    ctx.rule("all strings of length <= %d over the 20-character alphabet %r (exhaustive); non-trivial = contains a non-blank character" % (k, ALPHABET20))
+    # directive arguments of extreme size (CPython's int() refuses more than 4300 digits)
+    for n in (1, 20, 4300, 4301):
+        for d in "19":
+            texts += ["#line " + d * n + "\nab c", "# " + d * n + ' "g.h"\nab', "x\n#line " + d * n, "# " + d * n + ' "g.h" ' + d * n + "\nq",
+                      "#line " + d * n + "u\nab"]
+    ctx.rule("all strings of length <= %d over the 20-character alphabet %r (exhaustive) + #line / linemarker directives whose numbers have 1..4301 digits; non-trivial = contains a non-blank character" % (k, ALPHABET20))
     py = pmap(py_scan, texts)
     nontriv = sum(1 for t in texts if t.strip(" \t\n"))
     ctx.count(len(texts), nontrivial_n=nontriv)
